@@ -72,7 +72,7 @@ class Runs(Part):
         # objectives of large magnitude: better and worse designs differ only in the 9th..16th significant digit
         rec.cost_offset = srng.choice([0.0, 0.0, 0.0, 1e9, -1e6]) if alg_name in ("nsga2", "epsmoea") else 0.0
         # stepped objectives (costs in steps of 0.1 or 0.25): exact ties in single objectives between different designs
-        rec.cost_quant = srng.choice([1, 1, 10 ** 8, 25 * 10 ** 7]) if alg_name in ("nsga2", "epsmoea") else 1
+        rec.cost_quant = srng.choice([1, 1, 10 ** 8, 25 * 10 ** 7, 5 * 10 ** 8, 10 ** 9]) if alg_name in ("nsga2", "epsmoea") else 1
         dynamic_registration(rec)
         if alg_name == "nsga2":
             from artap.algorithm_NSGAII import NSGAII as A
@@ -132,8 +132,10 @@ class Runs(Part):
         trace = [ev]
 
         def sol(i):
-            return {"c": [rank_of[j][float(c)] for j, c in enumerate(i.costs_signed[:-1])], "m": absx.abstract_marker(i.costs_signed[-1])}
-        for before, x, after in accepts[:60]:
+            # the design key is part of the record: replacing a member by an offspring with the SAME costs is a replacement, not a rejection
+            return {"v": rec.vkey(i.vector), "c": [rank_of[j][float(c)] for j, c in enumerate(i.costs_signed[:-1])],
+                    "m": absx.abstract_marker(i.costs_signed[-1])}
+        for before, x, after in accepts[:200]:
             try:
                 trace.append({"ev": "popaccept", "pop": [sol(i) for i in before], "x": sol(x), "after": [sol(i) for i in after], "exc": ""})
             except KeyError:
